@@ -52,6 +52,43 @@ class Bench:
             r = (rec[self.idf], rec[self.posf])
         return r, it.faults
 
+    def moved(self, cab, how):
+        """the cabinet moved into a new object — by its move constructor, by move assignment into a fresh cabinet, or by swap() with a fresh one —; the history goes on with
+        the new object.  Where the class declares none of its own the compiler's member-wise versions apply: a copy of the record."""
+        it = minterp.Interp(self.prog, {}, hooks=dict(minterp.VECTOR_HOOKS, **{'move': lambda it_, f, st, a: a[0], 'vector::swap': self.h_swap}), inline=('*',))
+        short = self.cls.split('::')[-1].split('<')[0]
+        if how == 'ctor':
+            ctors = [g for g in self.prog.by_name.get(self.cls + '::' + short, ()) if g.d.get('ctor') and g.body is not None and len(g.params) == 1 and g.params[0]['t'].rstrip().endswith('&&')]
+            if not ctors:
+                return copy.deepcopy(cab), []
+            new = it.new_record(self.cls)
+            it._keep.append(new)
+            it.run_ctor(ctors[0], ctors[0].stmts[0], new, self.cls, ctors[0], [it.ref(cab)])
+            return new, it.faults
+        new = it.new_record(self.cls)
+        it._keep.append(new)
+        if how == 'assign':
+            ops = [g for g in self.prog.by_name.get(self.cls + '::operator=', ()) if g.body is not None and len(g.params) == 1 and g.params[0]['t'].rstrip().endswith('&&')]
+            if not ops:
+                return copy.deepcopy(cab), []
+            it.call(ops[0], [it.ref(cab)], this=new)
+            return new, it.faults
+        sw = [g for g in self.prog.by_name.get(self.cls + '::swap', ()) if g.body is not None and len(g.params) == 1]
+        if not sw:
+            return copy.deepcopy(cab), []
+        it.call(sw[0], [it.ref(cab)], this=new)
+        return new, it.faults
+
+    def h_swap(self, it, f, st, a):
+        """std::swap / member swap of two members of the same kind"""
+        if 'obj' in st:
+            x, y = it.cur_obj, a[0]
+            if isinstance(x, list) and isinstance(y, list):
+                x[:], y[:] = list(y), list(x)
+                return None
+            raise AnalysisBroken('%s: member swap of something the replay does not hold as a sequence (%s)' % (f.short, f.loc(st['i'])))
+        raise AnalysisBroken('%s: std::swap of values the replay does not understand (%s)' % (f.short, f.loc(st['i'])))
+
     def cells(self, cab):
         return len(cab[self.vec[0]])
 
@@ -111,7 +148,7 @@ def walk(bench, depth):
             return None
         seen[key] = left
         n = bench.cells(cab)
-        ops = [('alloc', nobj + 1), ('alloc', 0), ('clear',)]
+        ops = [('alloc', nobj + 1), ('alloc', 0), ('clear',)] + ([('move', 'ctor'), ('move', 'assign'), ('move', 'swap')] if not any(o[0] == 'move' for o in hist) and live else [])
         cand = list(issued) + [(0, 0)] + [(t[0], n) for t in list(live)[:1]]
         for t in cand:
             ops.append(('free', t))
@@ -131,6 +168,9 @@ def walk(bench, depth):
                 else:
                     l2[r] = ptr(op[1])
                     i2.append(r)
+            elif op[0] == 'move':
+                c2, faults = bench.moved(c2, op[1])
+                why = faults[0] if faults else None
             elif op[0] == 'clear':
                 r, faults = bench.call(c2, 'clear', [])
                 why = faults[0] if faults else None
@@ -174,6 +214,8 @@ def fmt_hist(h):
             out.append('alloc(%s)' % ('obj' if op[1] else 'nullptr'))
         elif op[0] == 'clear':
             out.append('clear()')
+        elif op[0] == 'move':
+            out.append({'ctor': 'moved into a new cabinet', 'assign': 'move-assigned to a fresh cabinet', 'swap': 'swapped with a fresh cabinet'}[op[1]])
         else:
             out.append('%s(id=%d pos=%d)' % (op[0], op[1][0], op[1][1]))
     return ', '.join(out)
@@ -181,7 +223,7 @@ def fmt_hist(h):
 
 def r10(ctx, prog, CAB):
     depth = 6 if ctx.tier == 'thorough' else 5
-    ctx.rule('C08.R10', 'A10 the cabinet replayed against a reference map: every history of up to %d operations, explored up to equal states (alloc with an object or nullptr, free / update through every token issued '
+    ctx.rule('C08.R10', 'A10 the cabinet replayed against a reference map: every history of up to %d operations, explored up to equal states (the cabinet moved into a new one by move construction, move assignment or swap — the class\'s own where it declares them —, alloc with an object or nullptr, free / update through every token issued '
              'so far — stale ones included —, the null token and forged tokens pairing a live id with a position at or past the end, clear) is interpreted on the syntax trees of '
              'Cabinet<T>; after each operation every token is looked up again: at() answers exactly for the live tokens, free()/update() act exactly on them, alloc() never repeats '
              'a token, size() counts the live entries, and no vector access leaves the cell array' % depth, floor=1)
